@@ -21,6 +21,7 @@ def dispatch (verb : String) (args : List String) (obs : String) : Option Reply 
   | "paint" => PaintLab.handle args obs
   | "pool" => Pool.handle args obs
   | "reg" => Reg.handle args obs
+  | "mac" => Reg.handleMac args obs
   | "ovw" => Reg.handleOvw args obs
   | _ => none
 
